@@ -28,7 +28,7 @@ from . import common
 
 PROPERTY = "C19"
 LEVEL = "exploration"
-RUNS = {"quick": 2500, "thorough": 120000}
+RUNS = {"quick": 2500, "thorough": 80000}
 BUDGET = {"quick": 80, "thorough": 3000}
 RULE = ("seeded scenarios: 3-30 operations against one file server (write on/off) over a tree with boundary-size "
         "files and canaries outside the root: requests of every method with Uri-Path lists drawn from a hostile "
@@ -641,7 +641,6 @@ def execute(sim, scenario):
 
         # ---- model
         model = dict(inside0)
-        versions = {}
         history = {p: [v] for p, v in model.items()}
         etags = {}
         outcomes = []  # per op: dict
@@ -666,7 +665,6 @@ def execute(sim, scenario):
         def resync(actual):
             for p in set(model) | set(actual):
                 if model.get(p, "absent") != actual.get(p, "absent"):
-                    versions[p] = versions.get(p, 0) + 1
                     history.setdefault(p, []).append(actual.get(p, "absent"))
             model.clear()
             model.update(actual)
@@ -768,8 +766,8 @@ def execute(sim, scenario):
             if listing_of is not None and model.get(listing_of, "absent") is None:
                 if b2 is not None and (rc.block_value(b2)[0] != 0 or rc.block_value(b2)[1]):
                     return
-                names = [p[len(listing_of) + 1:] for p in model if p.startswith(listing_of + "/")
-                         and "/" not in p[len(listing_of) + 1:]]
+                names = [p[len(listing_of) + 1:] for p in list(model) + list(history)
+                         if p.startswith(listing_of + "/") and "/" not in p[len(listing_of) + 1:]]
                 if any(ch in n for n in names for ch in '<>,;"'):
                     return
                 try:
@@ -781,7 +779,9 @@ def execute(sim, scenario):
                     ok = False
                     for cand in (t, unquote(t)):
                         full = posixpath.normpath(ROOT + posixpath.join(base, cand))
-                        if "\0" not in cand and inside(full) and full in model:
+                        # `history` knows every name that ever existed below the root: a listing served
+                        # from the Block2 cache may be stale, which is not this property's business
+                        if "\0" not in cand and inside(full) and (full in model or full in history):
                             ok = True
                     if not ok:
                         violation("C19/listing-mentions-foreign-entry", ident(i, o, entry=t, directory=listing_of))
@@ -931,8 +931,14 @@ def execute(sim, scenario):
         async def rfetch_body(i, o):
             path, szx = o["path"], o["szx"]
             target = target_of(path)
-            v0 = versions.get(target, 0)
-            content = model.get(target, "absent") if target is not None and path else "absent"
+
+            def ground_truth():
+                # (inode, mtime) of the file as the file system has it right now: equal before and
+                # after the download <=> nobody replaced or rewrote it in between
+                n = fs.lookup(target) if target is not None and path else None
+                return None if n is None or n.is_dir else (n.ino, n.mtime_ns, bytes(n.data))
+
+            g0 = ground_truth()
             msg = Message(code=aiocoap.GET, uri="coap://[%s]/" % common.SERVER_IP)
             msg.opt.uri_path = tuple(path)
             msg.opt.block2 = (0, False, szx)
@@ -944,7 +950,9 @@ def execute(sim, scenario):
                 return
             sim.log("app", "rfetch", str(resp.code), len(resp.payload))
             sig.update(("r %d %s;" % (szx, resp.code)).encode())
-            if str(resp.code).startswith("2.05") and content not in ("absent", None) and versions.get(target, 0) == v0:
+            g1 = ground_truth()
+            if str(resp.code).startswith("2.05") and g0 is not None and g1 is not None and g0[:2] == g1[:2]:
+                content = g0[2]
                 if resp.payload != content:
                     violation("C19/blockwise-fetch-mismatch", ident(
                         i, o, szx=szx, client="aiocoap", got=len(resp.payload), expected=len(content),
